@@ -9,10 +9,12 @@ mod core;
 mod hooks;
 mod mmio;
 mod out;
+mod pci;
 mod scen_cfg;
 mod scen_layout;
 mod scen_life;
 mod scen_mmio;
+mod scen_pci;
 mod scen_vq;
 mod zoo;
 mod transport;
@@ -115,6 +117,7 @@ fn main() {
         "life" => family_life(&args),
         "mmio" => family_mmio(&args),
         "cfg" => family_cfg(&args),
+        "pci" => family_pci(&args),
         f => {
             eprintln!("unknown family {f}");
             2
@@ -237,6 +240,23 @@ fn family_cfg(args: &Args) -> i32 {
     let index: Vec<Value> = jobs.iter().enumerate().map(|(k, p)| json!({"sc": format!("cfg-{k}"), "params": p.to_json()})).collect();
     let res = run_parallel(jobs, |p, k| run(p, &format!("cfg-{k}")), out.clone());
     let idx = json!({"family":"cfg","scenarios":index,"summaries":res,"events":out.events.load(Ordering::Relaxed)});
+    std::fs::write(format!("{}.index.json", args.out), serde_json::to_string(&idx).unwrap()).unwrap();
+    0
+}
+
+fn family_pci(args: &Args) -> i32 {
+    use scen_pci::*;
+    let mode = args.extra.first().map(|s| s.as_str()).unwrap_or("new").to_string();
+    let jobs: Vec<PciParams> = if let Some(r) = &args.replay {
+        let v: Value = serde_json::from_str(&std::fs::read_to_string(r).expect("replay file")).expect("json");
+        vec![PciParams::from_json(&v["params"])]
+    } else {
+        all_params(&mode, args.tier == "thorough", args.seed)
+    };
+    let out = Arc::new(out::Out::create(&args.out));
+    let index: Vec<Value> = jobs.iter().enumerate().map(|(k, p)| json!({"sc": format!("pci{}-{k}", p.mode), "params": p.to_json()})).collect();
+    let res = run_parallel(jobs, |p, k| run(p, &format!("pci{}-{k}", p.mode)), out.clone());
+    let idx = json!({"family":"pci","scenarios":index,"summaries":res,"events":out.events.load(Ordering::Relaxed)});
     std::fs::write(format!("{}.index.json", args.out), serde_json::to_string(&idx).unwrap()).unwrap();
     0
 }
